@@ -139,6 +139,9 @@ def init_specs() -> list[Spec]:
                  "Agent(position=position, cost=cost, fitness=calculate_fitness(cost, self._task.minmax))":
                      ("{{| a_pos := {position}; a_cost := {cost}; a_fit := fitness_of {cost} d |}}", AG)}}),
         Spec("gen_fitness", h, None, "calculate_fitness", [("value", "value", F), ("task_type", "task_type", DIR)], F, floats=FLOATS),
+        Spec("gen_task_validate_weights", m, "Task", "validate_objective_weights", [("self.objective_weights", "weights", OPT(LIST(X)))], "unit", fallible=True,
+             attrs={"self_value": ("tt", "unit"),
+                    "idioms": {"np.all(np.array(self.objective_weights) >= 0)": ("(forallb (fun w_ => xleb (XFin 0) w_) (opt_list weights))", BOOL)}}),
     ]
 
 
